@@ -147,6 +147,15 @@ def parse_place(s):
     assert rest=='', (s,rest)
     return loc,pr
 
+_hdr_cache={}
+def impl_header(it):
+    if it.name in _hdr_cache: return _hdr_cache[it.name]
+    mm=re.search(r'<impl at ([^:]+):(\d+):(\d+): (\d+):(\d+)>', it.name)
+    if not mm: _hdr_cache[it.name]=''; return ''
+    f,l1,c1,l2,c2=mm.groups(); src=open('/repo/'+f).read().split('\n')
+    h=src[int(l1)-1][int(c1)-1:int(c2)-1] if l1==l2 else ' '.join(src[int(l1)-1:int(l2)])
+    _hdr_cache[it.name]=h; return h
+def is_trait_impl(it): return ' for ' in impl_header(it)
 class Frame:
     _n=0
     def __init__(s, item): s.item=item; s.locals={}; Frame._n+=1; s.id=Frame._n
@@ -208,21 +217,34 @@ class Interp:
             base=re.sub(r'::promoted\[\d+\]$','',base)
             k=f'{base}::promoted[{m.group(2)}]'
             if k in items: return items[k]
+        mt=re.match(r'^<(.*) as (.*)>::(\w+)$', path)
+        if mt:
+            ty=mt.group(1).split('::')[-1]; tr=mt.group(2).split('<')[0].split('::')[-1]; nm=mt.group(3)
+            c=[it for k,it in items.items() if k.endswith('>::'+nm) and '<impl at' in k and re.search(r'\b'+tr+r'\b.* for .*\b'+ty+r'\b', impl_header(it))]
+            # disambiguate same-named types by module of the type
+            tymods=mt.group(1).split('::')[:-1]
+            c=sorted(c,key=lambda it: sum(1 for x in tymods if x in it.name),reverse=True)
+            return c[0] if c else None
         segs=path.split('::')
         # suffix match on trimmed paths
         for n in range(1,len(segs)):
             k='::'.join(segs[n:])
             if k in items: return items[k]
-        # Type::NAME  ->  <impl at FILE>::NAME where FILE matches the type's module
-        name=segs[-1]; ty=segs[-2] if len(segs)>1 else ''
-        cands=[it for k,it in items.items() if k.endswith('>::'+name) and '<impl at' in k]
-        modhint='/'.join(x for x in segs[:-2] if x not in ('fields',))
-        c2=[it for it in cands if all(h in it.name for h in segs[:-2][-2:])] or cands
-        # prefer impl whose file path contains the module names
+        # Type::NAME  ->  inherent <impl at FILE>::NAME ; prefer impls located in the type's own module
+        name=segs[-1]
+        cands=[it for k,it in items.items() if k.endswith('>::'+name) and '<impl at' in k and not is_trait_impl(it)]
+        modpath='::'.join(segs[:-2])
+        exact=[it for it in cands if it.name.startswith(modpath+'::<impl at') or ('::'.join(segs[1:-2])+'::<impl at') in it.name and it.name.startswith('::'.join(segs[1:-2]))]
+        if exact: return exact[0]
+        tyfile=segs[-3] if len(segs)>=3 else ''
         def score(it):
             f=re.search(r'<impl at ([^:]+):', it.name).group(1)
-            return sum(1 for x in segs[:-1] if x.lower() in f.lower())
-        c2=sorted(c2,key=score,reverse=True)
+            parts=f.replace('.rs','').split('/')
+            sc=sum(1 for x in segs[:-1] if x in parts)
+            if ('u32' in parts)!=('u32' in segs) : sc-=5
+            if ('u64' in parts)!=('u64' in segs) and ('u32' in parts or 'u64' in parts): sc-=5
+            return sc
+        c2=sorted(cands,key=score,reverse=True)
         return c2[0] if c2 else None
     def operand(s, frame, txt):
         txt=txt.strip()
@@ -266,6 +288,7 @@ class Interp:
         if m and (m.group(1).split('::')[-1] in ('Fq','Fr','Fp') or 'DomainFieldElement' in m.group(1)):
             args=[s.operand(frame,a) for a in split_top(m.group(2))]
             if 'DomainFieldElement' in m.group(1): return Struct(m.group(1),args)
+            if isinstance(args[0],FE): return args[0]
             limbs=args[0].fields[0]; v=sum(x<<(32*i) for i,x in enumerate(limbs))*RINV%Q
             if v>Q//2: v-=Q
             return FE(z3.IntVal(v))
@@ -289,9 +312,11 @@ class Interp:
         for pat,model in s.models:
             if re.search(pat, fn): return model(s, frame, fn, args)
         it=s.find_fn(fn, args)
+        s.depth=getattr(s,'depth',0)+1
+        if s.depth==40: print('DEEP CALL', fn, '->', it.name if it else None)
         if it is None:
             s.ctx.opaque.add(fn); raise KeyError('no body/model for '+fn)
-        return s.call_item(it, args)
+        r=s.call_item(it, args); s.depth-=1; return r
     def find_fn(s, fn, args):
         items=s.ctx.items
         if fn in items: return items[fn]
@@ -328,17 +353,31 @@ class Interp:
                 want_ref='<&' in tr
                 c=[it for it in c if ('<&' in hdr(it))==want_ref and ('&mut' in hdr(it))==('&mut' in tr)] or c
             if len(c)>=1: return c[0]
+            # provided (default) trait method: body generic over Self
+            k=tr.split('<')[0]+'::'+meth
+            for n in range(len(k.split('::'))):
+                kk='::'.join(k.split('::')[n:])
+                if kk in items:
+                    it=items[kk]; it.self_subst=ty; return it
             return None
         # Type::method (inherent)
         segs=fn.split('::'); meth=segs[-1]
-        cands=[it for k,it in items.items() if it.kind=='fn' and k.endswith('>::'+meth) and '<impl at' in k]
+        cands=[it for k,it in items.items() if it.kind=='fn' and k.endswith('>::'+meth) and '<impl at' in k and not is_trait_impl(it)]
         def score(it):
             f=re.search(r'<impl at ([^:]+):', it.name).group(1)
-            return sum(1 for x in segs[:-1] if x.lower() in f.lower().replace('.rs','').split('/'))
+            parts=f.replace('.rs','').split('/')
+            sc=sum(1 for x in segs[:-1] if x in parts)
+            if ('u32' in parts)!=('u32' in segs) and ('u32' in segs or 'u64' in segs): sc-=5
+            if ('u64' in parts)!=('u64' in segs) and ('u32' in segs or 'u64' in segs): sc-=5
+            tyn=segs[-2] if len(segs)>1 else ''
+            if not re.search(r'impl(<.*>)? '+re.escape(tyn)+r'\b', impl_header(it)): sc-=10
+            return sc
         cands=sorted(cands,key=score,reverse=True)
+        if cands and score(cands[0])<0: return None
         return cands[0] if cands else None
     def call_item(s, item, args):
         fr=Frame(item)
+        fr.subst=getattr(item,'self_subst',None)
         for i,a in enumerate(args): fr.locals[f'_{i+1}']=a
         blocks=blocks_of(item); bb='bb0'
         steps=0
@@ -371,7 +410,9 @@ class Interp:
                 if m and not m.group(2).endswith(('Lt','Le','Gt','Ge','Eq','Ne')):
                     dst,fn,argtxt,ret=m.groups()
                     args2=[s.operand(fr,a) for a in split_top(argtxt)]
-                    val=s.call(fr, fn.strip(), args2)
+                    fn=fn.strip()
+                    if fr.subst: fn=re.sub(r'\bSelf\b', fr.subst, fn)
+                    val=s.call(fr, fn, args2)
                     loc,pr=parse_place(dst); f,l,p=s.resolve(fr,loc,pr); s.write(f,l,p,val)
                     nxt=ret; break
                 m=re.match(r'^(.*?) = (.*)$', st)
@@ -434,7 +475,20 @@ def m_ident(I,f,fn,a): return int(a[0]) if isinstance(a[0],bool) else a[0]
 def m_into(I,f,fn,a):
     m=re.match(r'^<(.*) as Into<(.*)>>::into$', fn)
     return I.call(f, f'<{m.group(2)} as From<{m.group(1)}>>::from', a)
+def m_bigint_one(I,f,fn,a): return Struct('BigInt',[[1,0,0,0]])
+def m_bigint_new(I,f,fn,a): return Struct('BigInt',[list(a[0])])
+def limbs_of(b): return b.fields[0] if isinstance(b,Struct) else b
+def m_fp_new(I,f,fn,a):
+    v=sum(x<<(64*i) for i,x in enumerate(limbs_of(a[0])))%Q
+    if v>Q//2: v-=Q
+    return FE(z3.IntVal(v))
+def m_fp_new_unchecked(I,f,fn,a):
+    v=sum(x<<(64*i) for i,x in enumerate(limbs_of(a[0])))*RINV%Q
+    if v>Q//2: v-=Q
+    return FE(z3.IntVal(v))
 MODELS=[
+ (r'^ark_ff::BigInt::<\d+>::one$', m_bigint_one),(r'^ark_ff::BigInt::<\d+>::new$', m_bigint_new),
+ (r'ark_ff::Fp<.*>>::new$', m_fp_new),(r'ark_ff::Fp<.*>>::new_unchecked$', m_fp_new_unchecked),
  (r'^<(u\d+|usize) as From<(u\d+|bool|usize)>>::from$', m_ident),(r'^<.* as Into<.*>>::into$', m_into),
  (r'wrapper::Fq::add$', m_add),(r'wrapper::Fq::sub$', m_sub),(r'wrapper::Fq::mul$', m_mul),(r'wrapper::Fq::neg$', m_neg),(r'wrapper::Fq::square$', m_square),
  (r'Fq::from_montgomery_limbs$', m_from_mont),(r'Fq::from_le_limbs$', m_from_le_limbs),
